@@ -63,6 +63,10 @@ TARGETS = {
                  fields={"_window_size": "F", "_max_requests": "Z", "_request_log": "list I"},
                  methods={"_prune": dict(params={"now": "I"}), "try_acquire": dict(params={"now": "I"}),
                           "time_until_available": dict(params={"now": "I"})}),
+            dict(file=POLICY, cls="AdaptivePolicy",
+                 fields={"_current_rate": "F", "_window_size": "F", "_tokens": "F", "_last_refill_time": "opt I"},
+                 methods={"_refill": dict(params={"now": "I"}), "try_acquire": dict(params={"now": "I"}),
+                          "time_until_available": dict(params={"now": "I"})}),
             dict(file=POLICY, cls="FixedWindowPolicy",
                  fields={"_requests_per_window": "Z", "_window_size": "F", "_current_window_start": "opt I", "_current_window_count": "Z"},
                  methods={"_get_window_start": dict(params={"now": "I"}, pure=True), "_maybe_reset": dict(params={"now": "I"}),
